@@ -109,7 +109,7 @@ func single(rt *rapid.T, a *adapter, s *spec, e *entry) *prim {
 			rt.Fatalf("%v\nharness: Public() of the one-key handle for %s: %v", s, e, err)
 		}
 	}
-	p, err := a.fromHandle(h, pub)
+	p, err := a.fromHandle(h, pub, nil)
 	if err != nil {
 		rt.Fatalf("%v\nthe class factory refuses the one-key keyset of usable key %s: %v", s, e, err)
 	}
@@ -275,6 +275,27 @@ func (c *ctx) check(w *prim, cand *candidate) {
 	}
 }
 
+// chooseFactory draws which factory serves the keyset: the default one (global registry, nil) or
+// the ...WithConfig factory with the class's V0 configuration.  V0 knows no key managers and only
+// the key types its source registers, so it is offered only for keysets made of those types.
+func chooseFactory(rt *rapid.T, a *adapter, s *spec) keyset.Config {
+	s.factory = "registry"
+	if a.v0 == nil {
+		return nil
+	}
+	for _, e := range s.final() {
+		if e.legacy() || !a.v0Types[e.info.Type] {
+			return nil
+		}
+	}
+	if !rapid.Bool().Draw(rt, "config_v0_factory") {
+		return nil
+	}
+	s.factory = "configV0"
+	evid.Add("config_v0_factory_cases/"+a.name, 1)
+	return a.v0()
+}
+
 func runSelection(rt *rapid.T, a *adapter, monitored bool) {
 	detrand.Seed(rapid.Uint64().Draw(rt, "entropy"))
 	s := drawSpec(rt, a, 6, monitored)
@@ -298,7 +319,7 @@ func runSelection(rt *rapid.T, a *adapter, monitored bool) {
 			pub = annotate(rt, s, pub, ann)
 		}
 	}
-	w, err := a.fromHandle(h, pub)
+	w, err := a.fromHandle(h, pub, chooseFactory(rt, a, s))
 	if err != nil {
 		c.fatalf("the class factory refuses a keyset of usable keys: %v", err)
 	}
@@ -564,8 +585,11 @@ func runPRF(rt *rapid.T, monitored bool) {
 	}
 	h := buildHandle(rt, s, ann)
 	set, err := prf.NewPRFSet(h)
+	if cfg := chooseFactory(rt, prfAdapter, s); cfg != nil {
+		set, err = prf.NewPRFSetWithConfig(h, cfg)
+	}
 	if err != nil {
-		c.fatalf("prf.NewPRFSet refuses a keyset of usable keys: %v", err)
+		c.fatalf("prf.NewPRFSet (%s) refuses a keyset of usable keys: %v", s.factory, err)
 	}
 	prim := s.primary()
 	if set.PrimaryID != prim.id {
